@@ -1,4 +1,4 @@
-(* Proofs/Result.v — C03: lemmas about the merge along `time` and the assembled result. *)
+(* Proofs/Result.v — C03: lemmas about the concatenation along `time`, the tables and the assembled result. *)
 From Coq Require Import ZArith List Bool String Lia Sorted.
 From PyxelV Require Import Model.Result.
 Import ListNotations.
